@@ -104,6 +104,9 @@ func init() {
 		if id, ok := witnessInt(w, "random_file"); ok {
 			checkC03Random(ctx, id, rep)
 		}
+		if id, ok := witnessInt(w, "structured_file"); ok {
+			checkC03Structured(ctx, id, rep)
+		}
 	}}
 }
 
@@ -172,11 +175,11 @@ func init() {
 		}
 		kind, _ := w["input_kind"].(string)
 		items := []WorkItem{{ID: 0, Kind: kind, Data: data, Aux: data}}
-		mode := "c10"
 		if s, _ := w["stream"].(string); s == "limits" {
-			mode = "c10limits"
+			runLimitsStage(ctx, rep, items)
+			return
 		}
-		judgeC10(ctx, rep, items, runIsolated(ctx, mode, items, 1, 1, rep), "replay")
+		judgeC10(ctx, rep, items, runIsolated(ctx, "c10", items, 1, 1, rep), "replay")
 	}}
 }
 
